@@ -116,6 +116,76 @@ theorem blindCreate_can_lose :
     s1.2 = 1 ∧ s2.1 "r" = some 2 := by
   decide
 
+/-! ## The settled switch, in the lock model (any number of threads, any schedule)
+
+Model: `Sentinel.Lemmas.LockDiscipline` (`SEv`, `sAdm`, `sWF`, `pub`).  A request's single snapshot is a `read` event; a
+writer swaps the table between `wbegin` and `wend f` while holding the mutex in write mode.  `pub v tr` is the table
+published by the completed swaps of `tr`. -/
+
+/-- **(a) Old-or-new, never torn.**  In every admissible execution the table a request reads is a *published* table —
+    the one published by the swaps completed before the read, `pub s0.cur pre` — and no swap is in progress at that
+    moment: the request is decided entirely by one published table. -/
+theorem request_reads_one_published_table {τ : Type} {l : Lock} (s0 : SSt τ) (pre post : List (SEv τ)) (t : Thread)
+    (hi : SInv l s0) (hw : sWF l s0 (pre ++ [SEv.read t] ++ post)) :
+    (sRun s0 pre).pending = none ∧ (sRun s0 pre).cur = pub s0.cur pre :=
+  ⟨read_not_torn s0 pre post t hi hw, cur_run s0 pre⟩
+
+/-- **(b) Settled.**  Once a switch has completed (`wend t' f`, after which the writer returns), every request whose
+    read comes later in the execution — with no further switch completed in between — reads exactly the table that
+    switch published, whatever the other threads do and however the scheduler interleaves them. -/
+theorem request_after_switch_reads_new_table {τ : Type} {l : Lock} (s0 : SSt τ) (p mid post : List (SEv τ))
+    (t t' : Thread) (f : τ → τ) (hi : SInv l s0)
+    (hw : sWF l s0 (p ++ [SEv.wend t' f] ++ mid ++ [SEv.read t] ++ post))
+    (hmid : ∀ e ∈ mid, isWend e = false) :
+    (sRun s0 (p ++ [SEv.wend t' f] ++ mid)).pending = none ∧
+      (sRun s0 (p ++ [SEv.wend t' f] ++ mid)).cur = f (pub s0.cur p) := by
+  obtain ⟨h1, h2⟩ := request_reads_one_published_table s0 (p ++ [SEv.wend t' f] ++ mid) post t hi hw
+  refine ⟨h1, ?_⟩
+  rw [h2, pub_append, pub_append, pub_noWend _ mid hmid]
+  simp [pub]
+
+/-- **(c) Cross-resource independence.**  If every switch completed in `pre` leaves the entry of resource `r` as it was
+    (per-resource loads / clears of other resources: `fun m => applyUpd m (Upd.setRes r' rules)` with `r' ≠ r`), then a
+    request on `r` reads `r`'s entry of the initial table — other resources' switches never change its decision. -/
+theorem other_resources_switches_invisible {ρ : Type} {l : Lock} (s0 : SSt (Res → List ρ)) (pre post : List (SEv (Res → List ρ)))
+    (t : Thread) (r : Res) (hi : SInv l s0) (hw : sWF l s0 (pre ++ [SEv.read t] ++ post))
+    (hother : ∀ e ∈ pre, ∀ t' f, e = SEv.wend t' f → ∀ m, f m r = m r) :
+    (sRun s0 pre).pending = none ∧ (sRun s0 pre).cur r = s0.cur r := by
+  obtain ⟨h1, h2⟩ := request_reads_one_published_table s0 pre post t hi hw
+  refine ⟨h1, ?_⟩
+  rw [h2]
+  exact pub_preserves (fun m => m r) s0.cur pre hother
+
+/-- a per-resource update of another resource is such a swap -/
+theorem setRes_other_preserves {ρ : Type} (r r' : Res) (rules : List ρ) (h : r' ≠ r) (m : Res → List ρ) :
+    applyUpd m (Upd.setRes r' rules) r = m r := by
+  simp [applyUpd, Ne.symm h]
+
+/-- the hypotheses are satisfiable: writer `1` swaps under `Lock`, reader `2` reads under `RLock` afterwards -/
+example : sWF 0 (⟨fun _ => .readers [], (0 : Nat), none⟩ : SSt Nat)
+    ([SEv.lk (Ev.acq 1 0 true), SEv.wbegin 1, SEv.wend 1 (fun _ => 7), SEv.lk (Ev.rel 1 0 true),
+      SEv.lk (Ev.acq 2 0 false)] ++ [SEv.read 2] ++ [SEv.lk (Ev.rel 2 0 false)]) := by
+  simp [sWF, sAdm, sStep, enabled, holds, stepLS, upd]
+
+/-! ## `sync.Once`: the body runs exactly once -/
+
+/-- **For any number of concurrent `Do` calls and any schedule the body is begun at most once, and whenever a `Do` call
+    has returned it has been begun exactly once** (and completed: `ret` is only admissible when `done`). -/
+theorem once_body_runs_exactly_once (tr : List OEv) (hw : oWF ⟨false, none⟩ tr) :
+    starts tr ≤ 1 ∧ ∀ pre post t, tr = pre ++ [OEv.ret t] ++ post → starts pre = 1 := by
+  refine ⟨by simpa [oBudget] using starts_le_budget _ tr hw, ?_⟩
+  intro pre post t htr
+  subst htr
+  rw [List.append_assoc, oWF_append] at hw
+  obtain ⟨hpre, hrest⟩ := hw
+  have hdone : (oRun ⟨false, none⟩ pre).done = true := hrest.1
+  have h1 := done_needs_start _ pre hpre rfl rfl hdone
+  have h2 : starts pre ≤ 1 := by simpa [oBudget] using starts_le_budget _ pre hpre
+  omega
+
+example : oWF ⟨false, none⟩ [OEv.start 1, OEv.finish 1, OEv.ret 2, OEv.ret 1] := by
+  simp [oWF, oAdm, oStep]
+
 /-! ## 2. The generated table -/
 
 open Sentinel.Gen.Access
@@ -222,6 +292,105 @@ theorem table_race_free (s0 : LS) (pre mid post : List Ev) (t1 t2 : Thread) (x :
   rw [← hmu] at h2
   obtain ⟨p, q, r, hm⟩ := discipline_implies_exclusion s0 pre mid post h.mu t1 t2 x w1 w2 h.w k.w hne hww hwf h1 h2
   exact ⟨h.mu, h.w, k.w, p, q, r, hm⟩
+
+/-! ### `outlier-nodemap-race`: the exact extent of the finding
+
+`outlier_nodemap_partial` (below) is about the rows *copied from the pinned tree*; `table_disciplined` is the partial
+statement over the regenerated table.  What keeps both partial: the full statement `Disciplined [] accesses` is false on
+the pinned tree (`outlier_nodemap_witness`) — the two reads in `getNodeBreakersOfResource` hold nothing.  The following
+says that the exclusion list is *exactly* the failure set, not a superset: -/
+
+/-- for every live write row `a` and live row `b` of the same class: the pair lacks a common mutex **iff** `b` is a listed
+    known read (one of the two is false exactly when the other is true) -/
+def exactB (ex : List (Cls × String)) (t : List Access) : Bool :=
+  t.all fun a => !(a.write && a.live) ||
+    t.all fun b => b.cls != a.cls || !b.live || (commonLockB a b != excusedRead ex b)
+
+/-- **Exact characterisation, by kernel evaluation of the regenerated table:** either the finding is present exactly
+    as listed — a (live write, live row of the same class) pair lacks a common mutex *iff* its second row is a listed
+    read of `getNodeBreakersOfResource`; every listed row really conflicts with every writer of its class, and nothing
+    else does — or the table has no undisciplined pair at all (the code has been repaired; then the listed keys are
+    simply unused and `table_disciplined` is the full statement). -/
+theorem nodemap_exact_or_repaired : exactB excusedReads accesses = true ∨ (badPairs [] accesses).isEmpty = true := by
+  decide +kernel
+
+theorem exactB_spec (ex : List (Cls × String)) (t : List Access) (h : exactB ex t = true)
+    (a : Access) (ha : a ∈ t) (b : Access) (hb : b ∈ t) (wa : a.write = true) (la : a.live = true) (lb : b.live = true)
+    (hc : b.cls = a.cls) : commonLockB a b = false ↔ excusedRead ex b = true := by
+  have h1 := List.all_eq_true.mp h a ha
+  simp only [wa, la, Bool.and_self, Bool.not_true, Bool.false_or] at h1
+  have h2 := List.all_eq_true.mp h1 b hb
+  simp only [hc, lb, bne_self_eq_false, Bool.not_true, Bool.false_or] at h2
+  cases h3 : commonLockB a b <;> cases h4 : excusedRead ex b <;> simp_all
+
+/-- the `iff` over the generated table, while the finding is present -/
+theorem nodemap_exact (hpresent : (badPairs [] accesses).isEmpty = false)
+    (a : Access) (ha : a ∈ accesses) (b : Access) (hb : b ∈ accesses) (wa : a.write = true) (la : a.live = true)
+    (lb : b.live = true) (hc : b.cls = a.cls) :
+    commonLockB a b = false ↔ excusedRead excusedReads b = true := by
+  rcases nodemap_exact_or_repaired with h | h
+  · exact exactB_spec _ _ h a ha b hb wa la lb hc
+  · rw [h] at hpresent; cases hpresent
+
+/-! ### The five rule tables obey the premise of the settled-switch theorems -/
+
+/-- module rule table (cell class; its container is `<name>[*]`), its RW mutex, the only function allowed to swap the
+    whole map, and the mutex that serialises the module's loaders -/
+def moduleTables : List (String × String × String × String) :=
+  [("core/flow.tcMap", "core/flow.tcMux", "core/flow.onRuleUpdate", "core/flow.updateRuleMux"),
+   ("core/isolation.ruleMap", "core/isolation.rwMux", "core/isolation.onRuleUpdate", "core/isolation.updateRuleMux"),
+   ("core/hotspot.tcMap", "core/hotspot.tcMux", "core/hotspot.onRuleUpdate", "core/hotspot.updateRuleMux"),
+   ("core/circuitbreaker.breakers", "core/circuitbreaker.updateMux", "core/circuitbreaker.onRuleUpdate", "core/circuitbreaker.updateRuleMux"),
+   ("core/system.ruleMap", "core/system.ruleMapMux", "core/system.onRuleUpdate", "core/system.updateRuleMux")]
+
+/-- every live row of the table's cell or container class holds the module's mutex — a write in write mode, a read in
+    either mode (`sAdm`'s requirement on `read` / `wbegin`) —, except reads made by the (single, serialised) loader
+    itself while it holds the loaders' mutex in write mode: the writer looking at the table it has just published
+    (e.g. for logging) is not a request; and the classes and the mutexes exist in the table -/
+def tableLockedB (cls mu upd : String) : Bool :=
+  let cids := idsOf classNames [cls, cls ++ "[*]"]
+  let mids := idsOf mutexNames [mu]
+  let uids := idsOf mutexNames [upd]
+  cids.length == 2 && mids.length == 1 && uids.length == 1 &&
+    accesses.all fun a => !(a.live && cids.contains a.cls) ||
+      (mids.any fun m => heldIn a m true || (!a.write && heldIn a m false)) ||
+      (!a.write && uids.any fun u => heldIn a u true)
+
+/-- the whole map (the cell class) is replaced only by the module's global loader; per-resource functions only touch
+    elements of the container -/
+def wholeSwapOnlyB (cls loader : String) : Bool :=
+  let cids := idsOf classNames [cls]
+  let eids := idsOf classNames [cls ++ "[*]"]
+  (accesses.all fun a => !(a.live && a.write && cids.contains a.cls) || a.fn == loader) &&
+  -- what the table records of the per-resource write sets: every live element insertion is at key `res`
+  (inserts.all fun r => !(r.phase == .live && eids.contains r.cls) || r.key == "res")
+
+/-- **Instantiation for flow, isolation, hotspot, circuit breaker and system**, from the regenerated table: all readers
+    and writers of the module's rule table follow the discipline `sAdm` asks for, so (a), (b), (c) above apply to them.
+    (That each access site of the code is one `read` / one `wbegin…wend` of the model is the same modelling step as in
+    `table_race_free`; `slots_single_snapshot` adds that a slot phase performs one `read` and a loader one swap.)
+    For (c) the table gives: the whole map is replaced only by the global loader, and every live element insertion of a
+    per-resource function is at the key expression `res`.  **Missing for a table-level proof of (c):** the rows of
+    `delete(G, k)` / element writes carry no key (only `Gen.inserts` records one, as source text), and nothing ties the
+    text `res` to the function's resource parameter or shows two calls with different arguments use different keys;
+    so `other_resources_switches_invisible` is instantiated under the hypothesis that a per-resource loader's swap is
+    `applyUpd · (Upd.setRes res _)` (`setRes_other_preserves`), which the stress oracles `fixedB` / `cbB` / `isoB` sample. -/
+theorem module_tables_locked :
+    ∀ m ∈ moduleTables, tableLockedB m.1 m.2.1 m.2.2.2 = true ∧ wholeSwapOnlyB m.1 m.2.2.1 = true := by
+  decide +kernel
+
+/-! ### `Exit`: from the once-fact to "the body runs exactly once" -/
+
+/-- **For any number of concurrent `Exit` calls on one entry the exit body runs exactly once.**  Table side: every call
+    of `SentinelEntry.Exit` that acts on the entry sits inside `exitCtl.Do(func(){…})` (`exit_runs_once`), so the effects
+    of an `Exit` call are the effects of the once-body.  Model side (`once_body_runs_exactly_once`): in every admissible
+    execution of `sync.Once` — any number of callers, any schedule — the body is begun at most once, and exactly once
+    before any `Do` (hence any `Exit`) has returned. -/
+theorem exit_body_runs_exactly_once :
+    (∃ r ∈ onceFacts, r.fn = "core/base.SentinelEntry.Exit" ∧ r.outside = 0 ∧ 0 < r.inside) ∧
+    ∀ tr : List OEv, oWF ⟨false, none⟩ tr →
+      starts tr ≤ 1 ∧ ∀ pre post t, tr = pre ++ [OEv.ret t] ++ post → starts pre = 1 :=
+  ⟨exit_runs_once _ (by simp [requiredOnce]), once_body_runs_exactly_once⟩
 
 /-! ## 3. Witnesses of the known findings (rows copied from the pinned tree; the check prints
     `KNOWN-FINDING` only while the regenerated table still contains such rows) -/
